@@ -276,6 +276,8 @@ def run_exp(sh, ctx):
 	from gambit.seq import SequenceFile
 	from gambit.results import CSVResultsExporter, JSONResultsExporter, ResultsArchiveWriter, ResultsArchiveReader
 	rng = random.Random(f'C11-{ctx.seed}-{sh["sub"]}')
+	import gc as _gc
+	shared_csv = CSVResultsExporter()      # one exporter object used for every result set of the run (the databases come and go)
 	for wi in range(sh['nworlds']):
 		w = W.designed_world(rng, conflict_bias=rng.random() < 0.5, cr_names=sh['cr'])
 		two_sets = rng.random() < 0.3
@@ -358,6 +360,14 @@ def run_exp(sh, ctx):
 				ww = dict(desc, fmt=fmt, pretty=pretty, via=via)
 				if fmt == 'csv':
 					check_csv(ctx, text, results, ww, 'CSVResultsExporter')
+					# the same exporter object as for all earlier result sets (whose databases were closed and whose objects are gone)
+					try:
+						buf2 = io.StringIO(newline='')
+						shared_csv.export(buf2, results)
+						ctx.count('csv_exports_with_an_exporter_used_for_earlier_result_sets', int(wi > 0))
+						check_csv(ctx, buf2.getvalue(), results, dict(ww, exporter='one CSVResultsExporter object re-used for every result set of the run'), 'CSVResultsExporter (re-used object)')
+					except Exception as e:
+						ctx.violation('csv-export-raises', f'export with a re-used exporter raised {type(e).__name__}: {e}', ww)
 				elif fmt == 'json':
 					check_json(ctx, text, results, ww, 'JSONResultsExporter')
 				else:
@@ -400,6 +410,9 @@ def run_exp(sh, ctx):
 				ctx.count('two_genome_set_archives_through_one_reader')
 		finally:
 			db.signatures.close(); db.session.close()
+			# the objects of this world are released before the next one is built (their memory - and their id() values - get re-used)
+			results = back = db = w = item = None
+			_gc.collect()
 
 
 def run_cli(sh, ctx):
@@ -417,6 +430,9 @@ def run_cli(sh, ctx):
 		outs = {}
 		for fmt in ('csv', 'json', 'archive'):
 			o = ctx.workdir / f'c{wi}.{fmt}'
+			if wi % 2 == 1:
+				o.write_text('x' * 200000 + '\n')      # a longer file of an earlier run at the output path: it is replaced, not overwritten in place
+				ctx.count('cli_runs_with_existing_larger_output_file')
 			code, so, se, exc = clidrv.run_inproc(['-d', d, 'query', '-f', fmt, '-o', o, '--no-progress', '-s', qs_file] + (['--strict'] if strict else []))
 			ctx.count('cli_commands')
 			if code != 0:
@@ -460,7 +476,7 @@ def finalize(merged, tier, seed, inconclusive):
 		inconclusive.append('class never observed: params:chunksize=None')
 	if c.get('results_with_edge_distances', 0) == 0:
 		inconclusive.append('class never observed: results_with_edge_distances')
-	need = ['csv_exports_after_an_exporter_with_other_format_options', 'format:csv', 'format:json', 'format:archive', 'csv_ok', 'json_ok', 'archive_ok', 'feature:no-prediction', 'feature:unreportable-predicted-taxon', 'feature:failed-strict-result',
+	need = ['csv_exports_after_an_exporter_with_other_format_options', 'csv_exports_with_an_exporter_used_for_earlier_result_sets', 'format:csv', 'format:json', 'format:archive', 'csv_ok', 'json_ok', 'archive_ok', 'feature:no-prediction', 'feature:unreportable-predicted-taxon', 'feature:failed-strict-result',
 	        'feature:warnings', 'feature:no-source-file', 'feature:with-source-file', 'feature:primary-not-closest', 'chars:comma', 'chars:dquote', 'chars:LF', 'chars:CRLF', 'chars:non-BMP',
 	        'chars:bare-CR', 'worlds_with_second_genome_set', 'via:fileobj', 'via:path', 'pretty:True', 'cli_commands']
 	for n in need:
